@@ -230,6 +230,10 @@ func runC10(args []string) error {
 			if l.Uni {
 				name = fmt.Sprintf("e%d-\U0001F600-é.dat", k)
 			}
+			if li%3 == 0 && k > 0 {
+				// an entry named like the previous one plus a temporary-file / backup suffix
+				name = specs[k-1].Name + []string{".tmp", "~", ".bak"}[(li/3)%3]
+			}
 			d := make([]byte, 3+rng.Intn(12))
 			rng.Read(d)
 			if kd == "S" {
